@@ -290,7 +290,27 @@ def check_fifo(eng, run):
     if not (acq and rel and wake):
         raise AnalysisError("anchor vanished: FairLock.acquire/release/_wake_up_first")
     facts = {}
-    calls = [n for n in own_nodes(acq.node) if isinstance(n, ast.Call) and isinstance(n.func, ast.Attribute) and (dotted(n.func.value) or "").endswith("_waiters")]
+    # acquire() and the private coroutines only acquire() runs (its slow path split off); the queue under its attribute name or a local
+    # alias of it (`waiters = self._waiters`, `self._waiters = waiters = deque()`)
+    from sa.norm import referenced_only_from
+    family = [acq] + [m for m in fl.methods.values() if m is not acq and not isinstance(m.node, ast.Lambda) and m.name not in ("release", "_wake_up_first", "locked")
+                      and referenced_only_from(fl, m.name, {"acquire"})]
+
+    def _aliases(m):
+        out = set()
+        for x in ast.walk(m.node):
+            if isinstance(x, ast.NamedExpr) and isinstance(x.target, ast.Name) and (dotted(x.value) or "").endswith("_waiters"):
+                out.add(x.target.id)
+            if isinstance(x, ast.Assign):
+                if (dotted(x.value) or "").endswith("_waiters") or any((dotted(t) or "").endswith("_waiters") for t in x.targets):
+                    out |= {t.id for t in x.targets if isinstance(t, ast.Name)}
+        return out
+
+    def _is_q(e, m):
+        return (dotted(e) or "").endswith("_waiters") or (isinstance(e, ast.Name) and e.id in _aliases(m))
+
+    acq_nodes = [(n, m) for m in family for n in own_nodes(m.node)]
+    calls = [n for n, m in acq_nodes if isinstance(n, ast.Call) and isinstance(n.func, ast.Attribute) and _is_q(n.func.value, m)]
     facts["append-right"] = any(c.func.attr == "append" for c in calls) and not any(c.func.attr in ("appendleft", "insert") for c in calls)
     # wake index 0
     subs = [n for n in own_nodes(wake.node) if isinstance(n, ast.Subscript) and (dotted(n.value) or "").endswith("_waiters")]
@@ -299,7 +319,7 @@ def check_fifo(eng, run):
     # self-removal in finally around the wait
     ok = False
     fwd = False
-    for t in [n for n in own_nodes(acq.node) if isinstance(n, ast.Try)]:
+    for t in [n for n, _m in acq_nodes if isinstance(n, ast.Try)]:
         waits = any(isinstance(x, ast.Await) and isinstance(x.value, ast.Call) and isinstance(x.value.func, ast.Attribute) and x.value.func.attr == "wait" for b in t.body for x in ast.walk(b))
         if waits and any(isinstance(x, ast.Call) and isinstance(x.func, ast.Attribute) and x.func.attr == "remove" for b in t.finalbody for x in ast.walk(b)):
             ok = True
@@ -324,8 +344,8 @@ def check_fifo(eng, run):
         if isinstance(m.node, ast.Lambda):
             continue
         for c in own_nodes(m.node):
-            if isinstance(c, ast.Call) and isinstance(c.func, ast.Attribute) and (dotted(c.func.value) or "").endswith("._waiters") and c.func.attr in ("popleft", "pop", "clear", "remove"):
-                if not (m is acq and c.func.attr == "remove"):
+            if isinstance(c, ast.Call) and isinstance(c.func, ast.Attribute) and _is_q(c.func.value, m) and c.func.attr in ("popleft", "pop", "clear", "remove"):
+                if not (m in family and c.func.attr == "remove"):
                     shrinkers.append((m, c))
             if isinstance(c, ast.Delete) and any("_waiters" in ast.unparse(t) for t in c.targets):
                 shrinkers.append((m, c))
